@@ -623,5 +623,7 @@ def pinned(ctx):
         (KEY_INTLIT, dict(t='log', env=_env([i]), ast=one(('cmp', '==', ('ref', 'i'), ('lit', '3.0', None))))),
         (KEY_INTNODE, dict(t='log', env=_env([i, x]), ast=one(('cmp', '<', ('ref', 'x'), ('ref', 'i'))))),
         (KEY_TWOLIT, dict(t='log', env=_env([a]), ast=one(('cmp', '<', ('lit', '1', [('m', 1)]), ('lit', '200', [('cm', 1)]))))),
+        (KEY_UNITDEF, dict(t='log', env=_env([a], [dict(name='ua', text='2', unit=[('cm', 1)])]),
+                           ast=one(('cmp', '<', ('ref', 'a'), ('lit', '100', [('[ua]', 1)]))))),
         (KEY_FALSEEQ, dict(t='log', env=_env([a]), ast=one(('cmp', '==', ('ref', 'a'), ('lit', '4', [('m', 1)]))))),
     ]
